@@ -125,6 +125,27 @@ func corruptions(r *lib.Run, rng *lib.Rand, files []savedFile) {
 				}
 				obs := r.Do("newt", args...)
 				r.Stat("corrupt.edits."+j.e.kind, 1)
+				// validation of the hypothesis checksum_detects of C18_damaged_intact_or_empty: a damaged text reads as
+				// an error, a checksum mismatch, the original document, or (no checksum line left) a lease-less document
+				orig := docTokens(j.f.text)
+				cls := "undetected"
+				switch {
+				case toks[0] == "err":
+					cls = "error"
+				case toks[0] == "docbad":
+					cls = "mismatch"
+				case strings.Join(toks[1:], " ") == strings.Join(orig[1:], " "):
+					cls = "original-document-" + toks[0]
+				case toks[0] == "doc" && len(toks) == 3:
+					cls = "no-leases"
+				}
+				r.Stat("corrupt.read."+j.e.kind+"."+cls, 1)
+				if cls == "undetected" {
+					if _, dup := reported.LoadOrStore("undetected-"+j.e.kind, true); !dup {
+						r.Viol("checksum-undetected-"+j.e.kind, j.e.desc+": the damaged text is accepted as "+toks[0]+" with a different document",
+							"newt "+strings.Join(args, " "))
+					}
+				}
 				// oracle
 				outcome := ""
 				switch {
